@@ -138,3 +138,328 @@ def make_element_tasks():
 
 
 make_element_tasks()
+
+
+# ----------------------------------------------------------------------------- _collect_orders_from_normal_agents (C09 caps, placement gate; C04 owner check)
+QC = "SequentialRunner._collect_orders_from_normal_agents"
+
+
+def owner_of(st, o, cls):
+    return st.read(o, "agent_id").term if cls == "Order" else st.read(st.read(o, "order"), "agent_id").term
+
+
+def collect_task(cls):
+    batch_ty = ("list", ("ref", cls))
+    fn = get_src().funcs[QC][0]
+
+    def consult(ex, st, recv, pos, kw, node):
+        """Agent.submit_orders(markets): user program -- returns an arbitrary fresh list of orders (ghost event Consult(agent))"""
+        st = st.copy()
+        n, cap = st.env["n_orders"].term, to_real(st.read(st.env["session"], "max_normal_orders"))
+        st.oblige("C09 an agent is consulted only while fewer than maxNormalOrders agents have produced orders", z3.ToReal(n) < cap, "pre@callsite")
+        it = st.env["agents"]; i = st.ghost.get("loop_index")
+        if i is not None:
+            el = z3.Select(st.elems(it.term, ("ref", "Agent")), i)
+            st.oblige("C09 the agent consulted in iteration i is the i-th agent of the shuffled list (each at most once)", recv.term == el, "pre@callsite")
+        res = V(batch_ty, st.new_ref("batch"))
+        st.assume(st.length(res.term) >= 0)
+        st.trace = st.trace + [("Consult", None, (recv.term, res.term))]
+        st.set_gh("consults", z3.Store(st.gh("consults"), st.env["self"].term, z3.Select(st.gh("consults"), st.env["self"].term) + 1))
+        return [(st, res)]
+
+    def inv(st, ctx):
+        e = st.env; i = ctx["i"]; ent = ctx["entry"]
+        n = e["n_orders"].term; ao = e["all_orders"].term
+        cap = to_real(st.read(e["session"], "max_normal_orders"))
+        j = z3.Int("j_col"); k = z3.Int("k_col")
+        outer = st.elems(ao, batch_ty)
+        agents_el = ent.elems(e["agents"].term, ("ref", "Agent"))
+        own = lambda b, kk: owner_of(st, V(("ref", cls), z3.Select(st.elems(b, ("ref", cls)), kk)), cls)
+        src = st.gh("batch_agent")
+        return [("n_orders = number of collected batches", z3.And(n == st.length(ao), 0 <= n, n <= i)),
+                ("one consultation per iteration so far", z3.Select(st.gh("consults"), e["self"].term) == z3.Select(ent.gh("consults"), e["self"].term) + i),
+                ("C09 a batch is admitted only while fewer than maxNormalOrders agents have produced orders", z3.Or(n == 0, z3.ToReal(n - 1) < cap)),
+                ("C09 some iteration ran only if the cap is positive", z3.Implies(i > 0, cap > 0)),
+                ("C04 every collected batch is non-empty and every order in it belongs to the agent that produced it",
+                 z3.ForAll([j], z3.Implies(z3.And(0 <= j, j < n), z3.And(st.length(z3.Select(outer, j)) > 0, ent.is_alloc(z3.Select(outer, j)) == False, st.is_alloc(z3.Select(outer, j)),
+                           z3.ForAll([k], z3.Implies(z3.And(0 <= k, k < st.length(z3.Select(outer, j))), own(z3.Select(outer, j), k) == st.F("Agent", "agent_id")[z3.Select(src, z3.Select(outer, j))])))))),
+                ("C09 batches are accepted only in a session with order placement", z3.Implies(n > 0, st.read(e["session"], "with_order_placement").term))]
+
+    def on_iter(ex, st, ctx):
+        st.ghost["loop_index"] = ctx["i"]
+
+    def mods(st, ctx):
+        ao = st.env["all_orders"].term
+        return [("len", [ao]), ("mem", [ao]), ("el:Ref", [ao]), ("nodup", [ao]), ("heapok", [ao]), "g:consults", "g:batch_agent"]
+
+    def ghost_after_append(ex, s1):
+        # ghost: remember which agent produced the batch just collected
+        s1.set_gh("batch_agent", z3.Store(s1.gh("batch_agent"), s1.env["orders"].term, s1.env["agent"].term))
+
+    def post(st0, st1, a, res):
+        n = st1.length(res.term)
+        cap = to_real(st0.read(a["session"], "max_normal_orders"))
+        nag = st0.length(st0.read(st0.read(a["self"], "simulator"), "normal_frequency_agents").term)
+        c0, c1 = z3.Select(st0.gh("consults"), a["self"].term), z3.Select(st1.gh("consults"), a["self"].term)
+        return [("C09 the number of collected batches stays below maxNormalOrders + 1 (exactly <= maxNormalOrders for an integer cap)", z3.Or(n == 0, z3.ToReal(n - 1) < cap)),
+                ("C09 no more consultations than normal agents, each agent at most once", z3.And(c1 - c0 <= nag, c1 - c0 >= 0)),
+                ("C09 with cap 0 nobody is consulted", z3.Implies(cap <= 0, c1 == c0)),
+                ("C09 batches only in a placement session", z3.Implies(n > 0, st0.read(a["session"], "with_order_placement").term))]
+    spec = FSpec(QC, post=post, fresh_result=True, result=("list", batch_ty), props=("C09", "C04"),
+                 modifies=lambda st, a: ["len", "mem", "el:Ref", "nodup", "heapok", "g:consults", "g:batch_agent"],
+                 raises={})
+    spec.may_raise = {"AssertionError": lambda st, a: z3.Not(st.read(a["session"], "with_order_placement").term),
+                      "ValueError": lambda st, a: z3.BoolVal(True)}     # spoofing order: rejected (the batch is not collected) -- see invariant C04
+
+    def setup(ex, st, a):
+        ex.ghost_after = {"all_orders.append(orders)": ghost_after_append}
+        st.gh("consults"); st.gh("batch_agent", lambda: z3.ArraySort(REF, REF))
+    loops = {0: LoopSpec(inv, modifies=mods, header="agents", name="consult-normal-agents", on_iter=on_iter)}
+    obl, info = spec.verify(specs={("m", "Agent", "submit_orders"): consult}, loops=loops, setup=setup)
+    info["function"] = f"{QC} (batches of {cls})"
+    info["assumptions"] = info["assumptions"] + ["batches analysed as homogeneous lists (all Order / all Cancel); the code treats elements independently"]
+    return {"obligations": obl, "info": [info]}
+
+
+for _cls in ("Order", "Cancel"):
+    task(f"{QC}[{_cls}]", props=["C09", "C04"], functions=[QC], replay="whole_run")(lambda _cls=_cls: collect_task(_cls))
+
+
+# ----------------------------------------------------------------------------- high-frequency phase after each batch (C09: rate draw, cap, interleaving)
+class SummaryLoop:
+    """an inner loop whose body is verified separately (per-element tasks above): summarised as one trace event + havoc of what its body may change"""
+
+    def __init__(self, kind, modifies, header=None, name="summary"):
+        self.kind, self.modifies, self.header, self.name = kind, list(modifies), header, name
+
+    def run_for(self, ex, s, st, d):
+        out = []
+        for s1, it in ex.ev(s.iter, st, d):
+            s1 = s1.copy()
+            s1.trace = s1.trace + [(self.kind, None, (it.term,))]
+            havoc_with_frame(s1, self.modifies)
+            out.append((s1, "fall", None))
+        return out
+
+
+def hft_task(cls):
+    fn = get_src().funcs[Q][0]
+    outer = find_loops(fn, target_name="orders", kind=ast.For)
+    if len(outer) != 1:
+        raise Unsupported(f"anchor-lost: `for orders in sequential_orders` not found in {Q}")
+    body = outer[0].body
+    # the statements after the per-order loop of the batch
+    idx = [i for i, s_ in enumerate(body) if isinstance(s_, ast.For)][0]
+    stmts = body[idx + 1:]
+    agent_loop = [n for n in stmts if isinstance(n, ast.For)]
+    if len(agent_loop) != 1 or ast.unparse(agent_loop[0].iter) != "agents":
+        raise Unsupported(f"anchor-lost: high-frequency agent loop not found in {Q}")
+    inner = [n for n in ast.walk(agent_loop[0]) if isinstance(n, ast.For) and n is not agent_loop[0]]
+    batch_ty = ("list", ("ref", cls))
+    runner = sym_obj("SequentialRunner", "runner"); session = sym_obj("Session", "session")
+    all_orders = V(("list", batch_ty), z3.Const("all_orders", REF))
+    env = {"self": runner, "session": session, "all_orders": all_orders, "agent": sym_obj("Agent", "loop_agent"), "n_high_freq_orders": None, "agents": None}
+
+    def consult(ex, st, recv, pos, kw, node):
+        st = st.copy()
+        n, cap = st.env["n_high_freq_orders"].term, to_real(st.read(st.env["session"], "max_high_frequency_orders"))
+        st.oblige("C09 a high-frequency agent is consulted only while fewer than maxHighFrequencyOrders of them have produced orders", z3.ToReal(n) < cap, "pre@callsite")
+        i = st.ghost.get("loop_index")
+        if i is not None:
+            st.oblige("C09 the agent consulted in iteration i is the i-th agent of the shuffled list (each at most once per batch)",
+                      recv.term == z3.Select(st.elems(st.env["agents"].term, ("ref", "Agent")), i), "pre@callsite")
+        res = V(batch_ty, st.new_ref("hft_batch")); st.assume(st.length(res.term) >= 0)
+        st.trace = st.trace + [("Consult", None, (recv.term, res.term))]
+        return [(st, res)]
+
+    def inv(st, ctx):
+        e = st.env; i = ctx["i"]
+        n = e["n_high_freq_orders"].term
+        cap = to_real(st.read(e["session"], "max_high_frequency_orders"))
+        return [("0 <= n_high_freq_orders <= i", z3.And(0 <= n, n <= i)),
+                ("C09 a high-frequency batch is admitted only while fewer than maxHighFrequencyOrders agents have produced orders", z3.Or(n == 0, z3.ToReal(n - 1) < cap)),
+                ("C09 some iteration ran only if the cap is positive", z3.Implies(i > 0, cap > 0)),
+                ("C09 batches only in a placement session", z3.Implies(n > 0, st.read(e["session"], "with_order_placement").term))]
+
+    def on_iter(ex, st, ctx):
+        st.ghost["loop_index"] = ctx["i"]
+    order_mods = HOOK_MAY_CHANGE + ["f:Order.price", "f:Order.volume", "f:Order.kind", "f:Order.is_buy", "f:Order.ttl"]
+    loops = [(agent_loop[0], LoopSpec(inv, modifies=lambda st, ctx: order_mods + [(k, [st.env["all_orders"].term]) for k in ("len", "mem", "el:Ref", "nodup", "heapok")],
+                                      name="consult-hft-agents", on_iter=on_iter))]
+    loops += [(n, SummaryLoop("HandleBatch", order_mods, name="handle-hft-batch")) for n in inner]
+    ex, st0, outs, obl = run_block(Q, stmts, env, specs={("m", "Agent", "submit_orders"): consult}, loops=loops, label=f"{Q}[hft-phase,{cls}]")
+    rate = to_real(st0.read(session, "high_frequency_submission_rate"))
+    npaths = 0
+    for s1, kind, val in outs:
+        if kind == "raise":
+            allowed = {"AssertionError": z3.Not(s1.read(session, "with_order_placement").term), "ValueError": z3.BoolVal(True)}
+            s1.oblige(f"raises:{val[0]} only for a batch in a non-placement session / a spoofed order", allowed.get(val[0], z3.BoolVal(False)), "raises")
+            continue
+        npaths += 1
+        draws = [t for t in s1.trace if t[0] == "Draw"]
+        if kind == "continue":
+            s1.oblige("trace:the high-frequency phase is skipped only after the rate draw, without consulting anybody", z3.BoolVal([t[0] for t in s1.trace] == ["Draw"]), "trace")
+            continue
+        # phase entered: the first draw u satisfies rate >= u
+        if not draws or s1.trace[0][0] != "Draw":
+            s1.oblige("trace:the phase starts with the rate draw", z3.BoolVal(False), "trace")
+    # the draw decides: phase entered iff rate >= u (from the real condition `rate < random()` -> continue)
+    obl.append({"name": f"{Q}[hft-phase,{cls}]/cover:paths", "pc": [], "goal": z3.BoolVal(npaths > 0), "kind": "cover"})
+    info = {"function": f"{Q} (high-frequency phase after each batch, batches of {cls})", "source_sha": get_src().source_hash(Q), "where": get_src().where(Q), "paths": npaths,
+            "assumptions": sorted(ex.used_assumptions | {"the per-order handling inside the phase is the pattern verified by tasks _handle_orders[hft,*]"})}
+    return {"obligations": obl, "info": [info]}
+
+
+for _cls in ("Order", "Cancel"):
+    task(f"{Q}[hft-phase,{_cls}]", props=["C09", "C04"], functions=[Q], replay="whole_run")(lambda _cls=_cls: hft_task(_cls))
+
+
+# ----------------------------------------------------------------------------- step / session / run skeleton (C06, C09, C10, C13)
+QI = "SequentialRunner._iterate_market_updates"
+QR = "SequentialRunner._run"
+
+
+def new_log(kind):
+    def h(ex, st, clsv, pos, kw, node):
+        st = st.copy()
+        r = V(("ref", clsv.py), st.new_ref(clsv.py.lower()))
+        args = list(pos) + [kw[k] for k in kw]
+        st.trace = st.trace + [(kind, None, tuple([r.term] + [a.term for a in args]))]
+        return [(st, r)]
+    return h
+
+
+def skeleton_specs():
+    sp = {("m", "Simulator", "_trigger_event_before_step_for_market"): hook("HookBM"), ("m", "Simulator", "_trigger_event_after_step_for_market"): hook("HookAM"),
+          ("m", "Simulator", "_trigger_event_before_session"): hook("HookBS"), ("m", "Simulator", "_trigger_event_after_session"): hook("HookAS"),
+          ("m", "Simulator", "_update_times_on_markets"): emit("TickAll"), ("m", "SequentialRunner", "_update_markets"): hook("UpdateMarkets"),
+          ("m", "SequentialRunner", "_iterate_market_updates"): hook("Iterate"),
+          ("m", "Log", "read_and_write_with_direct_process"): emit("Direct"), ("m", "Log", "read_and_write"): emit("Write"), ("m", "Logger", "_process"): emit("Flush"),
+          ("hook", "read", "Session", "with_order_placement"): lambda ex, st, obj, v: setattr(st, "trace", st.trace + [("GatePlacement", None, (obj.term, v.term))])}
+    for c in ("MarketStepBeginLog", "MarketStepEndLog", "SessionBeginLog", "SessionEndLog", "SimulationBeginLog", "SimulationEndLog"):
+        sp[("ctor", c)] = new_log("New" + c)
+    return sp
+
+
+def kinds(tr):
+    return [t[0] for t in tr]
+
+
+@task(QI + "[step]", props=["C06", "C09", "C10", "C13"], functions=[QI], replay="whole_run")
+def t_step_body():
+    """one step of a session: before-step hooks and synchronous step-begin records for every market, the order phase iff the session allows placement,
+    step-end records and after-step hooks for every market, then one clock tick for all markets"""
+    fn = get_src().funcs[QI][0]
+    steps = [n for n in find_loops(fn, kind=ast.For) if ast.unparse(n.iter) == "range(session.iteration_steps)"]
+    if len(steps) != 1:
+        raise Unsupported(f"anchor-lost: `for _ in range(session.iteration_steps)` not found in {QI}")
+    inner = [n for n in steps[0].body if isinstance(n, ast.For)]
+    runner = sym_obj("SequentialRunner", "runner"); session = sym_obj("Session", "session")
+    markets = V(("list", ("ref", "Market")), z3.Const("markets", REF))
+    env = {"self": runner, "session": session, "markets": markets}
+    loops = [(n, ForEachTrace(name=f"markets-{i}", modifies=HOOK_MAY_CHANGE)) for i, n in enumerate(inner)]
+    ex, st0, outs, obl = run_block(QI, steps[0].body, env, specs=skeleton_specs(), loops=loops, label=QI + "[step]")
+    lg = st0.read(runner, "logger"); sim = st0.read(runner, "simulator")
+    n = 0
+    for s1, kind, val in outs:
+        if kind == "raise":
+            s1.oblige(f"no-raise:{val[0]}@{val[1]}", z3.BoolVal(False), "no-raise"); continue
+        n += 1
+        tr = s1.trace
+        ks = kinds(tr)
+        if ks[:2] != ["ForEach", "GatePlacement"] or ks[-2:] != ["ForEach", "TickAll"] or ks[2:-2] not in ([], ["UpdateMarkets"]):
+            s1.oblige(f"trace:step = begin-loop, placement gate, [order phase], end-loop, tick (got {ks})", z3.BoolVal(False), "trace"); continue
+        b_seq, b_all = tr[0][2]; e_seq, e_all = tr[-2][2]
+        from pyvc.spec import implied
+        for has_logger in (True, False):
+            cond = z3.Not(lg.none) if has_logger else lg.none
+            pick = lambda tm: [t for t in tm if t[1] is None or implied([t[1]], cond)]
+            b_tmpl, e_tmpl = pick(b_all), pick(e_all)
+            exp_b = ["HookBM"] + (["NewMarketStepBeginLog", "Direct"] if has_logger else [])
+            exp_e = (["NewMarketStepEndLog", "Direct"] if has_logger else []) + ["HookAM"]
+            tag = "with a logger" if has_logger else "without a logger"
+            s1.oblige(f"trace:C13/C10 per market at step begin ({tag}): {exp_b} (got {kinds(b_tmpl)})", z3.BoolVal(kinds(b_tmpl) == exp_b), "trace")
+            s1.oblige(f"trace:C13/C10 per market at step end ({tag}): {exp_e} (got {kinds(e_tmpl)})", z3.BoolVal(kinds(e_tmpl) == exp_e), "trace")
+            if kinds(b_tmpl) == exp_b and kinds(e_tmpl) == exp_e:
+                eqs = [b_seq == markets.term, e_seq == markets.term, b_tmpl[0][2][1] == ELEM, e_tmpl[-1][2][1] == ELEM]
+                if has_logger:
+                    eqs += [b_tmpl[1][2][1] == session.term, b_tmpl[1][2][2] == ELEM, b_tmpl[2][2][0] == b_tmpl[1][2][0], b_tmpl[2][2][1] == lg.term,
+                            e_tmpl[0][2][1] == session.term, e_tmpl[0][2][2] == ELEM, e_tmpl[1][2][0] == e_tmpl[0][2][0], e_tmpl[1][2][1] == lg.term]
+                s1.oblige(f"trace:the hooks and step records range over all markets, each for its own market; records go to the runner's logger directly ({tag})", z3.And(*eqs), "trace")
+        gate = tr[1]
+        s1.oblige("trace:C09 the order phase runs iff the session's placement switch is on", z3.And(gate[2][0] == session.term, gate[2][1] == z3.BoolVal(len(ks) == 5)), "trace")
+        s1.oblige("trace:C06 one clock update per step, for all markets together", tr[-1][2][1] == s1.read(sim, "markets").term, "trace")
+    obl.append({"name": QI + "[step]/cover:paths", "pc": [], "goal": z3.BoolVal(n >= 2), "kind": "cover"})
+    info = {"function": QI + " (body of the step loop)", "source_sha": get_src().source_hash(QI), "where": get_src().where(QI), "paths": n, "assumptions": sorted(ex.used_assumptions)}
+    return {"obligations": obl, "info": [info]}
+
+
+def implied_(st, f):
+    from pyvc.spec import implied
+    return implied(st.pc, f)
+
+
+@task(QR + "[session]", props=["C06", "C09", "C10", "C13"], functions=[QR], replay="whole_run")
+def t_session_body():
+    """one session of a run: current session set, before-session hooks, SessionBegin record + flush, the session's steps, after-session hooks, SessionEnd record + flush"""
+    fn = get_src().funcs[QR][0]
+    ses = [n for n in find_loops(fn, target_name="session", kind=ast.For)]
+    if len(ses) != 1:
+        raise Unsupported(f"anchor-lost: `for session in self.simulator.sessions` not found in {QR}")
+    runner = sym_obj("SequentialRunner", "runner"); session = sym_obj("Session", "session")
+    ex, st0, outs, obl = run_block(QR, ses[0].body, {"self": runner, "session": session}, specs=skeleton_specs(), label=QR + "[session]")
+    lg = st0.read(runner, "logger"); sim = st0.read(runner, "simulator")
+    n = 0
+    for s1, kind, val in outs:
+        if kind == "raise":
+            s1.oblige(f"no-raise:{val[0]}@{val[1]}", z3.BoolVal(False), "no-raise"); continue
+        n += 1
+        has_logger = implied_(s1, z3.Not(lg.none))
+        exp = ["HookBS"] + (["NewSessionBeginLog", "Write", "Flush"] if has_logger else []) + ["Iterate", "HookAS"] + (["NewSessionEndLog", "Write", "Flush"] if has_logger else [])
+        tr = s1.trace
+        if kinds(tr) != exp:
+            s1.oblige(f"trace:session = {exp} (got {kinds(tr)})", z3.BoolVal(False), "trace"); continue
+        cs = s1.read(sim, "current_session")
+        eqs = [tr[0][2][1] == session.term]
+        it = tr[4] if has_logger else tr[1]
+        eqs += [it[2][0] == runner.term, it[2][1] == session.term]
+        if has_logger:
+            eqs += [tr[1][2][1] == session.term, tr[2][2][0] == tr[1][2][0], tr[2][2][1] == lg.term, tr[3][2][0] == lg.term,
+                    tr[6][2][1] == session.term, tr[7][2][0] == tr[6][2][0], tr[7][2][1] == lg.term, tr[8][2][0] == lg.term]
+        s1.oblige("trace:C13 session hooks announce this session; C10 begin/end records for this session are written and flushed at the session boundary", z3.And(*eqs), "trace")
+        s1.oblige("the session is the simulator's current session while it runs", st_current(ex, s1, sim, session), "post")
+    obl.append({"name": QR + "[session]/cover:paths", "pc": [], "goal": z3.BoolVal(n >= 2), "kind": "cover"})
+    info = {"function": QR + " (body of the session loop)", "source_sha": get_src().source_hash(QR), "where": get_src().where(QR), "paths": n, "assumptions": sorted(ex.used_assumptions)}
+    return {"obligations": obl, "info": [info]}
+
+
+def st_current(ex, s1, sim, session):
+    cs = s1.read(sim, "current_session")
+    return z3.And(z3.Not(cs.none), cs.term == session.term)
+
+
+@task(QR + "[frame]", props=["C06", "C10"], functions=[QR], replay="whole_run")
+def t_run_frame():
+    """the run: SimulationBegin record + flush, the first clock tick (-1 -> 0) for all markets, the sessions in order, SimulationEnd record + flush"""
+    fn = get_src().funcs[QR][0]
+    ses = [n for n in find_loops(fn, target_name="session", kind=ast.For)]
+    runner = sym_obj("SequentialRunner", "runner")
+    loops = [(ses[0], SummaryLoop("Sessions", HOOK_MAY_CHANGE + ["f:Simulator.current_session"], name="sessions"))]
+    ex, st0, outs, obl = run_block(QR, fn.body, {"self": runner}, specs=skeleton_specs(), loops=loops, label=QR + "[frame]")
+    lg = st0.read(runner, "logger"); sim = st0.read(runner, "simulator")
+    n = 0
+    for s1, kind, val in outs:
+        if kind == "raise":
+            s1.oblige(f"no-raise:{val[0]}@{val[1]}", z3.BoolVal(False), "no-raise"); continue
+        n += 1
+        has_logger = implied_(s1, z3.Not(lg.none))
+        exp = (["NewSimulationBeginLog", "Write", "Flush"] if has_logger else []) + ["TickAll", "Sessions"] + (["NewSimulationEndLog", "Write", "Flush"] if has_logger else [])
+        if kinds(s1.trace) != exp:
+            s1.oblige(f"trace:run = {exp} (got {kinds(s1.trace)})", z3.BoolVal(False), "trace"); continue
+        tick = s1.trace[3] if has_logger else s1.trace[0]
+        sess = s1.trace[4] if has_logger else s1.trace[1]
+        s1.oblige("trace:C06 exactly one clock update of all markets before the first session; sessions taken from the simulator in order",
+                  z3.And(tick[2][1] == st0.read(sim, "markets").term, sess[2][0] == st0.read(sim, "sessions").term), "trace")
+    obl.append({"name": QR + "[frame]/cover:paths", "pc": [], "goal": z3.BoolVal(n >= 2), "kind": "cover"})
+    info = {"function": QR, "source_sha": get_src().source_hash(QR), "where": get_src().where(QR), "paths": n, "assumptions": sorted(ex.used_assumptions)}
+    return {"obligations": obl, "info": [info]}
